@@ -57,6 +57,8 @@ impl DualAverage {
         self.hbar = (1. - w) * self.hbar + w * (target - accept_stat);
         self.log_step = self.mu - self.hbar * (self.count as f64).sqrt() / self.settings.gamma;
         self.log_step = self.log_step.min(self.settings.max_step_size.ln());
+        // Long runs of rejected trajectories must not underflow the step size to zero.
+        self.log_step = self.log_step.max(f64::MIN_POSITIVE.ln());
         let mk = (self.count as f64).powf(-self.settings.k);
         self.log_step_adapted = mk * self.log_step + (1. - mk) * self.log_step_adapted;
         self.count += 1;
